@@ -8,7 +8,12 @@
 
    A batch file holds many traces (one JSON object per line: {"wanted0": [...], "events": [...]});
    Init picks one; the furthest position reached per trace is kept in a TLC register and the
-   post-condition requires every trace to have been consumed completely. *)
+   post-condition requires every trace to have been consumed completely.
+
+   CoapConn_Trace.cfg validates against the intended behaviour (Deviations = {}); CoapConn_Trace_dev.cfg enables every
+   named deviation of the released library: for an accepted trace the post-condition then prints <<"DEVS", i, S>> where
+   S is the set of deviations (devUsed) of a smallest accepting run - the signatures under which the execution is a
+   recorded finding.  A trace rejected even then shows a symptom that no listed deviation explains. *)
 EXTENDS CoapConn, Json, IOUtils, TLCExt
 
 Traces == ndJsonDeserialize(IOEnv.TRACE_FILE)
@@ -29,12 +34,13 @@ TInit ==
     /\ ctxs = << >> /\ sess = << >> /\ cur = 0 /\ fut = 0 /\ wanted = ToSet(Traces[tid].wanted0) /\ addr = InitAddr
     /\ descr = "none" /\ shutdownF = FALSE /\ callers = [c \in Callers |-> Idle] /\ nreq = 0 /\ bg = 0
     /\ closedClean = FALSE /\ out = << >>
+    /\ hasInfo = FALSE /\ devUsed = {} /\ badRet = FALSE /\ bgFailed = FALSE
 
 \* ---- what the last step emitted must be what was recorded next
 MatchEm(o) ==
     /\ E.ev = o.ev
     /\ CASE o.ev = "ctx_new"  -> E.x = o.x
-         [] o.ev = "ctx_shut" -> E.x = o.x /\ E.again = FALSE
+         [] o.ev = "ctx_shut" -> E.x = o.x /\ E.again = o.again
          [] o.ev = "req"      -> /\ E.x = o.x /\ E.r = o.r /\ E.c = o.c /\ E.kind = o.kind /\ E.addr = o.addr
                                  /\ E.e = o.e /\ E.n = o.n /\ E.op = o.op /\ ToSet(E.ids) = o.ids
          [] o.ev = "ret"      -> E.c = o.c /\ E.res = o.res
@@ -43,7 +49,7 @@ MatchEm(o) ==
 Consume ==
     /\ out # << >> /\ HasEv /\ MatchEm(Head(out)) /\ Step1
     /\ out' = Tail(out)
-    /\ UNCHANGED <<ctxs, sess, cur, fut, wanted, addr, descr, shutdownF, callers, nreq, bg, closedClean>>
+    /\ UNCHANGED <<ctxs, sess, cur, fut, wanted, addr, descr, shutdownF, callers, nreq, bg, closedClean, hvars>>
 
 \* ---- stimuli and observations (only once the emissions of the previous step are accounted for)
 ReqOwner(r) == {c \in Callers : callers[c].r = r /\ InFlight(c)}
@@ -78,13 +84,20 @@ TNext == \/ Consume
 TSpec == TInit /\ [][TNext]_tvars
 
 \* ---- acceptance bookkeeping (workers = 1)
-Progress == TLCSet(tid, IF TLCGet(tid) < l THEN l ELSE TLCGet(tid))
+\* register tid: furthest position; register NT + tid: the deviations used by an accepting run (a smallest such set)
+NT == Len(Traces)
+NoSet == {"-"}
+Done == l = Len(Ev) + 1
+Progress == /\ TLCSet(tid, IF TLCGet(tid) < l THEN l ELSE TLCGet(tid))
+            /\ IF Done /\ (TLCGet(NT + tid) = NoSet \/ Cardinality(devUsed) < Cardinality(TLCGet(NT + tid)))
+               THEN TLCSet(NT + tid, devUsed) ELSE TRUE
 TConstraint == Progress
-ASSUME \A i \in 1..Len(Traces) : TLCSet(i, 0)
+ASSUME \A i \in 1..Len(Traces) : TLCSet(i, 0) /\ TLCSet(Len(Traces) + i, NoSet)
 Accepted ==
     /\ TLCGet("stats").generated >= 0
     /\ \A i \in 1..Len(Traces) :
-          IF TLCGet(i) = Len(Traces[i].events) + 1 THEN TRUE
+          IF TLCGet(i) = Len(Traces[i].events) + 1
+          THEN (IF TLCGet(NT + i) = {} THEN TRUE ELSE PrintT(<<"DEVS", i, TLCGet(NT + i)>>) /\ TRUE)
           ELSE PrintT(<<"REJECTED", i, TLCGet(i)>>)
 \* debugging aid: a counterexample to this "invariant" is the longest matched prefix of a rejected trace
 DbgL == CHOOSE n \in 0..100000 : ToString(n) = IOEnv.DBG_L
